@@ -92,7 +92,7 @@ def oracle(name, ib, mb, meta):
             if icon_asked and g2['icon'] != g['icon']: icon_open = True
             g = g2
         if not b.op.startswith('frame 0 ') or b.fault: continue
-        ctx, fr = frame_of(b); d = dec(fr + bytes(max(0, 36 - len(fr))))
+        ctx, fr = frame_of(b); d = dec(rxview(b, fr))
         if d['tos'] == 0 and d['opc'] == 8: icon_asked = icon_open = False
         if d['tos'] not in (0, 1) or d['opc'] != 0x0B: continue
         sn = sends_of(b)
@@ -134,7 +134,7 @@ def count(name, lines, ib, stats, meta):
     for b in ib:
         if b.op.startswith('cfg 0'): mtu = int(dict(t.split('=', 1) for t in b.op.split()[2:])['mtu'])
         if not b.op.startswith('frame 0 '): continue
-        ctx, fr = frame_of(b); d = dec(fr + bytes(max(0, 36 - len(fr))))
+        ctx, fr = frame_of(b); d = dec(rxview(b, fr))
         if d['opc'] != 0x0B: continue
         stats['evaluations'] += 1
         sn = sends_of(b); q = qlt_fields(sn[0][2]) if sn else None
